@@ -102,11 +102,11 @@ CONTAINER_STUBS = ["std HashMap/HashSet in src/network_filter_list.rs and src/bl
                    "verif_shim::rule_matches (identity indirection for filter.matches at the bucket-scan call sites) -> M[rule id]: the per-rule matcher outcome is a free symbolic boolean per rule (decided separately under C02/C03)"]
 SCAN_LAYOUT = [("o1", "bool"), ("o2", "bool"), ("rt", "u8"), ("http", "bool"), ("https", "bool"), ("tp", "bool")]
 def scan(pid, name, harness, tags, a_on, what, tiers=(Q, T)):
-    return kern("%s.%s" % (pid, name), "src/network_filter_list.rs", "h_network_filter_list.rs", harness, list(tiers), 80, 900, 8,
+    return kern("%s.%s" % (pid, name), "src/network_filter_list.rs", "h_network_filter_list.rs", harness, list(tiers), 80, 900, 16 if "all" in harness else 8,
                 ["network_filter_list::NetworkFilterList::check" if "all" not in harness else "network_filter_list::NetworkFilterList::check_all", "request::Request::get_tokens_for_match"],
                 "one bucket holding two rules with tags %s in this order, tag 'a' %s; per-rule matcher outcomes and request flags symbolic" % (tags, "enabled" if a_on else "not enabled"),
                 SCAN_LAYOUT, "c01_scan", asserts=what, stubs=CONTAINER_STUBS + STD_REGEX_STUBS, subst=CONTAINER_SUBST, consts={"tags": tags, "a_on": a_on, "all": "all" in harness},
-                witnesses_optional=(["W:scan.only_last_rule_matches", "W:scan.nothing_matches"] if "all" in harness else ["W:scan.both_match"]))
+                witnesses_optional=(["W:scan.only_last_rule_matches", "W:scan.nothing_matches"] + ([] if a_on else ["W:scan.both_match"]) if "all" in harness else ["W:scan.both_match"] + (["W:scan.only_last_rule_matches"] if tags[1] is not None and not (a_on and tags[1] == "a") else [])))
 
 
 def B(n):
@@ -232,11 +232,21 @@ PROPERTIES["C03"] = dict(
 ID_LAYOUT = lambda n: [("my", "u32"), ("a", B(n)), ("al", "usize"), ("b", B(n)), ("bl", "usize"), ("c", B(n)), ("cl", "usize"), ("d", B(n)), ("dl", "usize"),
                        ("has_hy", "bool"), ("has_hz", "bool"), ("dy", "u64"), ("dz", "u64"), ("has_dy", "bool"), ("has_dz", "bool"),
                        ("ny", "u64"), ("nz", "u64"), ("has_ny", "bool"), ("has_nz", "bool"), ("my2", "u32")]
+def prec(name, harness, shape, consts, optional):
+    return kern("C04.prec." + name, "src/blocker.rs", "h_blocker.rs", harness, [Q, T], 250, 1800, 11, ["blocker::Blocker::check_parameterised", "network_filter_list::NetworkFilterList::check"],
+                "Blocker of concrete shape: " + shape + "; per-rule matcher outcomes, matched_rule and force_check_exceptions symbolic",
+                [("o1", "bool"), ("o2", "bool"), ("o3", "bool"), ("matched_rule", "bool"), ("force", "bool")], "c04_prec",
+                asserts="matched / important / exception / filter fields equal the documented precedence for every combination of per-rule outcomes",
+                stubs=CONTAINER_STUBS + STD_REGEX_STUBS + ["std::hash::RandomState::new -> fixed seed (the std maps created by Default are never accessed)"],
+                subst=CONTAINER_SUBST, consts=consts, witnesses_optional=optional)
 PROPERTIES["C04"] = dict(
     kernels=[
         kern("C04.id", "src/filters/network.rs", "h_network.rs", "c04_id", [Q], 30, 900, 8, ["filters::network::compute_filter_id", "NetworkFilter::get_id", "NetworkFilter::get_id_without_badfilter"],
              "two rule values y, z$badfilter: arbitrary mask, filter and hostname strings 0..=2 printable ASCII bytes, hostname present/absent, 0..=1 included-domain hash, 0..=1 excluded-domain hash",
              ID_LAYOUT(2), "c04_id", asserts="(<=) same pattern+hostname+domains+mask => get_id_without_badfilter(z) == get_id(y); (=>) equal ids => same rule [known: id stream has no delimiters]; the mask is part of the id"),
+        prec("plain", "c04_prec_plain", "one important rule, one normal blocking rule, one exception (no tags)", {"tagged": False, "a_on": False}, ["W:prec.excepted"][:0]),
+        prec("tag_off", "c04_prec_tag_off", "one tagged ('a') and one untagged blocking rule, one tagged ('a') exception; tag 'a' not enabled", {"tagged": True, "a_on": False}, ["W:prec.important_beats_exception", "W:prec.excepted"]),
+        prec("tag_on", "c04_prec_tag_on", "as tag_off with tag 'a' enabled", {"tagged": True, "a_on": True}, ["W:prec.important_beats_exception"]),
         kern("C04.idmask", "src/filters/network.rs", "h_network.rs", "c04_id_mask", [T], 120, 2400, 12, ["filters::network::compute_filter_id"],
              "as C04.id with strings 0..=1 plus a second arbitrary mask", ID_LAYOUT(1), "c04_id", asserts="two rules that differ only in their option mask have different ids (the mask is part of the id)"),
         kern("C04.id3", "src/filters/network.rs", "h_network.rs", "c04_id3", [T], 120, 2400, 12, ["filters::network::compute_filter_id"], "as C04.id with strings 0..=3", ID_LAYOUT(3), "c04_id", asserts="as C04.id"),
@@ -406,6 +416,22 @@ PROPERTIES["C18"] = dict(
     assumptions=["every permission decision in the crate is a call to is_injectable_by/is_default (read, not proved)"],
 )
 
+# ------------------------------------------------------------------------------------------------- C07
+PROPERTIES["C07"] = dict(
+    kernels=[
+        scan("C07", "gate.tag_off", "c01_scan_tagged_first_off", ["a", None], False, "a rule tagged 'a' is skipped when 'a' is not enabled, and the untagged rule behind it is still evaluated"),
+        scan("C07", "gate.tag_on", "c01_scan_tagged_first_on", ["a", None], True, "a rule tagged 'a' takes part in matching when 'a' is enabled"),
+        scan("C07", "gate.tagged_last", "c01_scan_tagged_last_off", [None, "a"], False, "an inactive tagged rule behind an untagged one"),
+        scan("C07", "gate.other_tag", "c01_scan_other_tag", ["b", "a"], True, "a rule tagged 'b' stays inactive while 'a' is enabled"),
+        scan("C07", "gate.all_off", "c01_scanall_tagged_first_off", ["a", None], False, "check_all (csp / redirect / removeparam lists) applies the same tag test: inactive", tiers=(T,)),
+        scan("C07", "gate.all_on", "c01_scanall_tagged_first_on", ["a", None], True, "check_all: active", tiers=(T,)),
+    ],
+    level_text="Decides the activation test at match time for tagged rules (both scan functions, every combination of per-rule match outcomes, tag enabled / not enabled / a different tag enabled).",
+    level_note="Partial. Decided: the tag test inside NetworkFilterList::check / check_all on buckets of concrete shape (which blocking/exception lists receive the enabled set: C04.prec), in container mode (std HashMap/HashSet replaced by Vec-backed reference containers; per-rule matcher abstracted). Outside: which lists receive the enabled set inside Blocker::check (covered for blocking/exception lists by C04.prec), important+tag and csp+tag rules (known from reading: importants and csp lists are scanned with the empty tag set), deserialize keeping the caller's tags (Engine + rmp-serde), the rebuild of the tagged list (NetworkFilterList::new).",
+    outside=["tag-set algebra of use/enable/disable (sets of symbolic Strings: out of memory at 16 GB for three one-letter tags)", "Engine::deserialize keeps the caller's enabled set (rmp-serde)", "rebuild of filters_tagged through NetworkFilterList::new with rules loaded", "tag + important / tag + csp combinations"],
+    assumptions=["std HashMap/HashSet behave as a finite map/set", "the per-rule matcher outcome is a free boolean per rule"],
+)
+
 # --------------------------------------------------------------------------------------------- selftest
 PROPERTIES["SELF_FALSE"] = dict(kernels=[kern("SELF.false", "src/resources/mod.rs", "h_selftest.rs", "self_false", [Q], 2, 300, 4, ["selftest"], "-", [("r", "u8")], "selftest")],
                                 level_text="", level_note="", outside=[], assumptions=[])
@@ -417,12 +443,11 @@ NOTES = ("Every check is a set of Kani proof harnesses over the real functions o
          "and which is outside. Exit 2 = inconclusive (timeout, OOM, harness no longer compiles, vacuity witness unsatisfied, counterexample not reproducible).")
 
 NOT_APPLICABLE = {
-    "C06": "history independence: every operation in the quantifier goes through Blocker/Engine (std HashMap/HashSet<String>: one symbolic-key insert+get >15 min), the regex cache hazard is heap-address reuse which CBMC's allocator never produces, and (de)serialisation is rmp-serde (6 symbolic bytes: 11 GB, no result)",
-    "C07": "the activation test is one expression inside the HashMap bucket scan and the tag-set algebra is HashSet<String>; no separable kernel that Kani finishes (the wire mapping of a rule's tag is checked under C08)",
+    "C06": "history independence: the regex cache hazard is heap-address reuse (CBMC's allocator never reuses an address), (de)serialisation is rmp-serde (6 symbolic bytes: 11 GB, no result), and even the one clause that is pure bit logic — Blocker::new vs add_filter file a single rule of symbolic mask under the same lists, in container mode — did not leave symbolic execution in 30 min (eight NetworkFilterList::new calls over vectors of symbolic length)",
     "C09": "the quantified variable is the SipHash seed / hashbrown iteration order: a symbolic seed makes every hash symbolic (2-entry map: no result in 25 min); cross-process runs are not a symbolic execution",
     "C13": "selection loop is inlined in Blocker::check_parameterised (HashMap x8), resource lookup is HashMap<String,Resource>, result built with format!; the permission gate predicate is covered under C18",
     "C14": "apply_removeparam needs a populated NetworkFilterList (HashMap) and builds its result with format!/join; probe >30 min without result",
-    "C15": "get_csp_directives = HashMap scan + HashSet<&str> + string join; probe >30 min without result",
+    "C15": "get_csp_directives: even in container mode (Vec-backed map/set, per-rule matcher abstracted to a free boolean) a csp list of two rules runs out of memory at 40 GB — check_all returns a vector of symbolic length whose elements are symbolic pointers, and the merge compares directive strings through them (HashSet<&str> insert/difference + String pushes)",
     "C17": "key extraction is three Regex values (Kani ICEs on the regex crate) and the stores are HashSet<String>",
     "C19": "Kani does not model threads; no solver-based engine for Rust concurrency is installed",
     "C20": "every conversion arm runs Regex::replace_all (regex crate cannot be compiled by Kani); parser-reachable masks need NetworkFilter::parse (>25 min for one concrete line)",
